@@ -479,7 +479,7 @@ var stmtPool = []string{
 	"add_key(a, 1)", "add_key(b, 2.5)", "add_key(c, \"str\")", "add_key(d, true)", "add_key(e, [1, \"x\"])", "add_key(big, 9007199254740993)",
 	"set_tag(message)", "set_tag(host, \"h2\")", "set_tag(newtag, \"v\")", "drop_key(message)", "drop_key(usage)", "rename(msg2, message)", "rename(u2, usage)",
 	"cast(n, \"str\")", "cast(n, \"float\")", "uppercase(message)", "trim(message)", "replace(message, \"o\", \"0\")", "strfmt(fmtd, \"%v-%v\", n, host)",
-	"set_measurement(\"newm\")", "set_measurement(host, true)", "set_measurement(message)", "set_measurement(nokey)",
+	"set_measurement(\"newm\")", "set_measurement(host, true)", "set_measurement(message)", "set_measurement(nokey)", "set_measurement(\"\")", "add_key(em, \"\")\nset_measurement(em, true)", "set_measurement(\" \")", "set_measurement(\"default_name\")",
 	"add_key(ts, \"2021-05-27 06:54:14.760 UTC\")\ndefault_time(ts)", "add_key(ts, \"1600000123\")\ndefault_time(ts)", "add_key(ts, \"2014-04-26 13:13:43 +0800\")\ndefault_time(ts, \"+8\")", "default_time(message)",
 	"x = len(message)\nadd_key(x)", "if n == 3 { add_key(three, true) } else { add_key(three, false) }", "for i in [1, 2] { add_key(last, i) }",
 	"add_key(time, 1600000000123456789)", "add_key(time, \"not an int\")", "rename(time, n)", "cast(time, \"int\")",
@@ -529,6 +529,12 @@ func genCase(t *rapid.T) (*tcase, bool, []string) {
 		}
 	}
 	c.Mode = rapid.SampledFrom([]string{"workspace", "workspace", "file-bare", "file-path"}).Draw(t, "mode")
+	if c.Mode != "workspace" && rapid.IntRange(0, 3).Draw(t, "oddname") == 0 {
+		// a single script file is whatever file the user names: no extension, another extension, a backup name
+		c.Name = rapid.SampledFrom([]string{"rules.txt", "pipeline", "main.p.bak", "script.PPL", ".hidden", "a b.conf"}).Draw(t, "filename")
+		labels = append(labels, "script/file-name-without-script-extension")
+		nontrivial = true
+	}
 	switch rapid.IntRange(0, 9).Draw(t, "special") {
 	case 0:
 		lines = append(lines, rapid.SampledFrom(failingRun).Draw(t, "runfail"))
